@@ -1,5 +1,4 @@
-import SC.Proofs.SrcFuns
-import SC.Proofs.Enc2
+import SC.Proofs.SrcBase
 /-!
 Loops of the regenerated source, by invariants over interpreter frames (the pattern of `Proofs/Asm*.lean`, one level up):
 the frame at the loop head is characterised by what its registers hold, the induction is over the distance to the end of the string,
@@ -7,14 +6,6 @@ and one `simp` call executes one whole iteration symbolically.
 -/
 namespace GoSsa.Str
 open GoSsa Gen.Src
-
-theorem wrap_i64_small (v : Int) (h1 : -9223372036854775808 ≤ v) (h2 : v < 9223372036854775808) : wrap .i64 v = v := by
-  unfold wrap toU bits signed
-  simp only [Bool.true_and]
-  have e : ((2 ^ 64 : Nat) : Int) = 18446744073709551616 := by decide
-  have e2 : (2 ^ (64 - 1) : Nat) = 9223372036854775808 := by decide
-  rw [e, e2]
-  split <;> rename_i hh <;> simp at hh <;> omega
 
 /-- what one iteration of `nonLetterASCII` computes for byte `b`, as the source does it, against the model's test -/
 theorem nla_byte_all : (List.range 256).all (fun n =>
